@@ -296,3 +296,44 @@ Definition exp_stream_reader_bases :=
   [ "BufferReader" ].
 Lemma stream_reader_bases_tie : Gen_Codec.stream_reader_bases = exp_stream_reader_bases.
 Proof. reflexivity. Qed.
+
+Definition exp_cache_calc_hash :=
+  [ "return hashlib.md5(buffer[PoseHeaderCache.start_offset:PoseHeaderCache.end_offset]).hexdigest()" ].
+Lemma cache_calc_hash_tie : Gen_Codec.cache_calc_hash = exp_cache_calc_hash.
+Proof. reflexivity. Qed.
+
+Definition exp_cache_check_cache :=
+  [ "if PoseHeaderCache.hash is None:
+    return None";
+    "if PoseHeaderCache.hash == PoseHeaderCache.calc_hash(buffer):
+    return PoseHeaderCache.header" ].
+Lemma cache_check_cache_tie : Gen_Codec.cache_check_cache = exp_cache_check_cache.
+Proof. reflexivity. Qed.
+
+Definition exp_cache_set_cache :=
+  [ "with PoseHeaderCache.lock:
+    PoseHeaderCache.start_offset = start_offset
+    PoseHeaderCache.end_offset = end_offset
+    PoseHeaderCache.header = copy.deepcopy(header)
+    PoseHeaderCache.hash = PoseHeaderCache.calc_hash(buffer)" ].
+Lemma cache_set_cache_tie : Gen_Codec.cache_set_cache = exp_cache_set_cache.
+Proof. reflexivity. Qed.
+
+Definition exp_cache_clear_cache :=
+  [ "with PoseHeaderCache.lock:
+    PoseHeaderCache.start_offset = None
+    PoseHeaderCache.end_offset = None
+    PoseHeaderCache.hash = None
+    PoseHeaderCache.header = None" ].
+Lemma cache_clear_cache_tie : Gen_Codec.cache_clear_cache = exp_cache_clear_cache.
+Proof. reflexivity. Qed.
+
+Definition exp_pose_copy :=
+  [ "return self.__class__(deepcopy(self.header), self.body.copy())" ].
+Lemma pose_copy_tie : Gen_Codec.pose_copy = exp_pose_copy.
+Proof. reflexivity. Qed.
+
+Definition exp_numpy_body_copy :=
+  [ "return type(self)(fps=self.fps, data=self.data.copy(), confidence=self.confidence.copy())" ].
+Lemma numpy_body_copy_tie : Gen_Codec.numpy_body_copy = exp_numpy_body_copy.
+Proof. reflexivity. Qed.
